@@ -1,6 +1,30 @@
 # Which source files are extracted, in which order, and the rewrite table (DESIGN.md §4.1).
 HDR = 'use vstd::prelude::*;\nuse crate::ghost::*;\n'
+HDR_IO = HDR + 'use crate::vio::*;\nbroadcast use crate::error::axiom_qmark_io;\n'
 MODULES = [
+    dict(name='error', file='error.rs', header=HDR + 'use crate::vio::*;\n', rewrites=[
+        dict(name='drop:Display', kind='drop_item', pat=r'^impl<U: fmt::Display> fmt::Display for Error<U>', count=1),
+        dict(name='drop:StdError', kind='drop_item', pat=r'^impl<U: fmt::Display \+ fmt::Debug> error::Error for Error<U>', count=1),
+        dict(name='R-derive:Debug', pat='#[derive(Debug)]\npub enum Error', rep='pub enum Error'),
+        dict(name='drop:From<Infallible>', kind='drop_item', pat=r'^impl<U> From<Infallible> for Error<U>', count=1),
+    ]),
+    dict(name='compression', file='compression.rs', header=HDR_IO, rewrites=[
+        dict(name='drop:FromStr', kind='drop_item', pat=r'^impl FromStr for CompressionType', count=1),
+        dict(name='drop:Display', kind='drop_item', pat=r'^impl fmt::Display for InvalidCompressionType', count=1),
+        dict(name='drop:StdError', kind='drop_item', pat=r'^impl Error for InvalidCompressionType', count=1),
+        dict(name='drop:codecs', kind='drop_item', pat=r'^(#\[[^\n]*\]\s*)*fn (zlib|snappy|snappy_pre_05|zstd|lz4)_(de)?compress', count=20),
+        dict(name='drop:decompress', kind='drop_item', pat=r'^pub fn decompress<R>', count=1),
+        dict(name='drop:compress', kind='drop_item', pat=r'^pub fn compress\(', count=1),
+        dict(name='R-use', pat='use std::error::Error;\nuse std::str::FromStr;\nuse std::{fmt, io};', rep='use std::io;'),
+    ]),
+    dict(name='count_write', file='count_write.rs', header=HDR_IO, rewrites=[
+        dict(name='R-mutself', kind='mutself', fn='into_inner', count=1),
+    ]),
+    dict(name='metadata', file='metadata.rs', header=HDR_IO, rewrites=[
+        dict(name='R-path:byteorder', pat='use byteorder::', rep='use crate::byteorder::'),
+        dict(name='R-byval-handle:read_from', pat='pub(crate) fn read_from<R: Read + Seek>(mut reader: R)', rep='pub(crate) fn read_from<R: Read + Seek>(reader: &mut R)'),
+        dict(name='R-byval-handle:write_into', pat='pub(crate) fn write_into<W: Write>(&self, mut writer: W)', rep='pub(crate) fn write_into<W: Write>(&self, writer: &mut W)'),
+    ]),
     dict(name='varint', file='varint.rs', header=HDR, rewrites=[]),
     dict(name='block_writer', file='block_writer.rs', header=HDR, rewrites=[
         dict(name='R-assert-diverge', kind='assert_diverge', count='+'),
